@@ -7,7 +7,8 @@
     property: event type and context not blank; the type is defined in [reg]; the payload
     is a JSON object; every entry's key is a field of the schema and its value has the
     field's declared type ([HasType]); every field that is not [Optional] is present.
-    [FT] is the set of float bit patterns that count as a time.
+    [FT] is the set of float bit patterns that count as a time ([CodeFloat]: what the code
+    accepts; [FloatInRange]: floor representable as i64 seconds, the property's reading).
 
     HOW THE CODE READS THE PROPERTY'S WORDS (every place where [Conforms] had to choose;
     1-9 are readings, 10-12 contradict the statement and are findings):
@@ -56,10 +57,13 @@ From Coq Require Import ZArith NArith List.
 From Snel Require Import Base.Bytes Model.Json Model.Schema Model.SchemaReg Model.Validate Proofs.ValidateProofs.
 Import ListNotations.
 
-(** The handler accepts a STORE iff it conforms (the code's reading: any float is a time). *)
+(** The handler accepts a STORE iff it conforms.  [CodeFloat] is the code's reading of "a float
+    that is a time", regenerated from src/shared/time.rs: on the pinned tree there is no range
+    check before [f.floor() as i64], [time_float_range_checked = false], and [CodeFloat b]
+    holds of EVERY float (finding 10). *)
 Theorem C06_accept_iff_conforms : forall reg cmd,
   wf_reg reg -> wf_payload (sc_payload cmd) ->
-  (store_ok reg cmd = true <-> Conforms AnyFloat reg cmd).
+  (store_ok reg cmd = true <-> Conforms CodeFloat reg cmd).
 Proof. exact store_ok_iff_conforms. Qed.
 Print Assumptions C06_accept_iff_conforms.
 
@@ -168,7 +172,7 @@ Print Assumptions C06_text_refuted.
 Theorem C06_text_accept_iff_conforms_outside_known : forall reg t,
   wf_reg reg -> wf_payload (sc_payload (tx_cmd t)) ->
   ~ BraceInString t -> ~ PlusExponent t ->
-  (store_text_ok reg t = true <-> Conforms AnyFloat reg (tx_cmd t)).
+  (store_text_ok reg t = true <-> Conforms CodeFloat reg (tx_cmd t)).
 Proof. exact text_accept_iff_conforms_outside_known. Qed.
 Print Assumptions C06_text_accept_iff_conforms_outside_known.
 
